@@ -78,7 +78,7 @@ Proof.
   intros Hv. unfold nthb, single_source. apply nth_overflow. rewrite map_length, seq_length. exact Hv.
 Qed.
 
-Notation src p s := (single_source (length p) s).
+Local Notation src p s := (single_source (length p) s).
 
 Lemma reachk_lt p s k v : gwf p -> s < length p -> reachk p (src p s) k v -> v < length p.
 Proof.
@@ -1617,4 +1617,204 @@ Proof.
     fold (cntw p dv s v). fold (cntw p (dt - dv) v t). fold (cntw p dt s t).
     rewrite !cntw_nw by assumption. reflexivity.
   - apply Nat.leb_gt in E. apply (pair_dep_off p s t v dt dv Hwf Hs Ht Hv Hht Hhv E).
+Qed.
+
+(** The combinatorial identity behind sigma_st(v) = sigma_sv * sigma_vt: the walks of a + b edges from
+    u to t whose a-th node is v are as many as (walks of a edges u -> v) x (walks of b edges v -> t). *)
+Lemma filter_filter_and {A} (P R : A -> bool) (l : list A) :
+  filter P (filter R l) = filter (fun x => P x && R x) l.
+Proof.
+  induction l as [|a l IH]; [reflexivity|]. cbn [filter]. destruct (R a); cbn [filter].
+  - destruct (P a); cbn [andb]; rewrite IH; reflexivity.
+  - rewrite andb_false_r. exact IH.
+Qed.
+
+Lemma sumn_scale (f : nat -> nat) c l : sumn (map (fun w => f w * c) l) = sumn (map f l) * c.
+Proof. unfold sumn. induction l as [|a l IH]; [reflexivity|]. cbn [map fold_right]. rewrite IH. lia. Qed.
+
+Lemma paths_through_proof (p : graph) : forall a b u v t,
+  length (filter (fun l => Nat.eqb (nth a l 0) v) (shortest_paths p u t (a + b))) =
+  length (shortest_paths p u v a) * length (shortest_paths p v t b).
+Proof.
+  intros a b u v t. unfold shortest_paths at 1. rewrite filter_filter_and.
+  fold (cntw p a u v). fold (cntw p b v t). revert u.
+  induction a as [|a IH]; intros u.
+  - cbn [Nat.add]. rewrite cntw_0. destruct (Nat.eqb u v) eqn:E.
+    + apply Nat.eqb_eq in E. subst u. rewrite Nat.mul_1_l. unfold cntw, shortest_paths. f_equal.
+      apply filter_ext_in. intros l Hl. apply walks_from_spec in Hl. destruct Hl as (_ & Hh & _).
+      destruct l as [|x r]; cbn [hd nth] in *; subst; rewrite ?Nat.eqb_refl; reflexivity.
+    + rewrite filter_none; [reflexivity|]. intros l Hl. apply walks_from_spec in Hl. destruct Hl as (Hlen & Hh & _).
+      destruct l as [|x r]; [cbn in Hlen; lia|]. cbn [hd nth] in *. subst x. rewrite E. reflexivity.
+  - cbn [Nat.add walks_from]. rewrite length_filter_flat_map, cntw_S, <- sumn_scale. f_equal.
+    apply map_ext. intros w. rewrite <- IH. rewrite filter_map_comm, map_length. f_equal.
+    apply filter_ext_in. intros l Hl. apply walks_from_nonempty in Hl.
+    destruct l as [|y r]; [contradiction|]. reflexivity.
+Qed.
+
+(* ------------------------------------------------------------------------------------------ *)
+(** * Part G. Statements with the hypotheses spelled out; executable hypothesis checkers *)
+
+Fixpoint nodupb (l : list nat) : bool :=
+  match l with [] => true | a :: t => negb (memn a t) && nodupb t end.
+(** every stored column index is < n and no row stores a column twice *)
+Definition rows_ok (p : graph) : bool :=
+  forallb (fun r => forallb (fun v => Nat.ltb v (length p)) r && nodupb r) p.
+
+Lemma nodupb_ok l : nodupb l = true -> NoDup l.
+Proof.
+  induction l as [|a t IH]; intros H; [constructor|]. cbn [nodupb] in H. apply andb_true_iff in H.
+  destruct H as [H1 H2]. constructor; [|apply IH; exact H2].
+  intros Hin. apply memn_In in Hin. rewrite Hin in H1. discriminate.
+Qed.
+
+Lemma rows_ok_sound p : rows_ok p = true -> gwf p /\ gnd p.
+Proof.
+  intros H. unfold rows_ok in H. rewrite forallb_forall in H.
+  assert (Hrow : forall u, u < length p -> In (row p u) p) by (intros u Hu; unfold row; apply nth_In; exact Hu).
+  split.
+  - intros u v Hin. assert (Hu := row_nonempty_lt _ _ _ Hin). assert (Hr := H _ (Hrow u Hu)).
+    apply andb_true_iff in Hr. destruct Hr as [Hr _]. rewrite forallb_forall in Hr.
+    apply Nat.ltb_lt. apply Hr. exact Hin.
+  - intros u. destruct (Nat.lt_ge_cases u (length p)) as [Hu|Hu].
+    + assert (Hr := H _ (Hrow u Hu)). apply andb_true_iff in Hr. destruct Hr as [_ Hr]. apply nodupb_ok. exact Hr.
+    + unfold row. rewrite nth_overflow by exact Hu. constructor.
+Qed.
+
+Theorem brandes_exact_explicit (g : wgraph) :
+  (forall u v, In v (row (pattern g) u) -> v < length g) ->
+  (forall u, NoDup (row (pattern g) u)) ->
+  length (betweenness g) = length g /\
+  forall v, v < length g ->
+    (V (betweenness g) v == V (betweenness_spec g) v)%Q /\
+    (V (betweenness_spec g) v ==
+       let n := length g in
+       let ordered := bsum n (fun s => bsum n (fun t =>
+          if Nat.eqb s v || Nat.eqb t v || Nat.eqb s t then 0 else pair_dependency (pattern g) s t v)) in
+       if is_symmetric g then ordered / 2 else ordered)%Q.
+Proof.
+  intros Hwf Hnd. assert (Lp := pattern_length g).
+  assert (Hwf' : gwf (pattern g)) by (intros u v H; rewrite Lp; exact (Hwf u v H)).
+  destruct (brandes_exact_proof g Hwf' Hnd) as (L1 & _ & H).
+  split; [exact L1|]. intros v Hv. split; [exact (H v Hv)|].
+  cbv zeta. unfold betweenness_spec. cbv zeta. unfold V, nthq. rewrite Lp. rewrite nth_map_seq by exact Hv.
+  unfold betweenness_ordered. cbv zeta. rewrite Lp.
+  destruct (is_symmetric g); rewrite ?Qred_correct; reflexivity.
+Qed.
+
+Theorem brandes_exact_checked (g : wgraph) :
+  rows_ok (pattern g) = true ->
+  length (betweenness g) = length g /\
+  forall v, v < length g -> (V (betweenness g) v == V (betweenness_spec g) v)%Q.
+Proof.
+  intros H. destruct (rows_ok_sound _ H) as [Hwf Hnd].
+  destruct (brandes_exact_proof g Hwf Hnd) as (L1 & _ & H2). split; assumption.
+Qed.
+
+(* ------------------------------------------------------------------------------------------ *)
+(** * Part H. Symmetric pattern: the halved ordered sum is the sum over unordered pairs *)
+
+Definition psym (p : graph) : Prop := forall u v, In v (row p u) <-> In u (row p v).
+
+Lemma A01_sym p u v : psym p -> A01 p u v = A01 p v u.
+Proof.
+  intros H. unfold A01. destruct (memn v (row p u)) eqn:E1, (memn u (row p v)) eqn:E2; try reflexivity.
+  - apply memn_In in E1. apply H in E1. apply memn_In in E1. congruence.
+  - apply memn_In in E2. apply H in E2. apply memn_In in E2. congruence.
+Qed.
+
+Lemma nw_sym p : psym p -> forall k s t, s < length p -> t < length p -> (nw p k s t == nw p k t s)%Q.
+Proof.
+  intros Hsym. induction k as [|k IH]; intros s t Hs Ht.
+  - cbn [nw]. rewrite (Nat.eqb_sym s t). reflexivity.
+  - rewrite (nw_first p k t s Ht Hs). cbn [nw]. apply bsum_ext. intros u Hu.
+    rewrite (IH s u Hs Hu), (A01_sym p u t Hsym). ring.
+Qed.
+
+Lemma sdist_sym p s t d : psym p -> s < length p -> t < length p -> sdist p s t d -> sdist p t s d.
+Proof.
+  intros Hsym Hs Ht [Pz Z0]. split.
+  - rewrite <- (nw_sym p Hsym d s t Hs Ht). exact Pz.
+  - intros k Hk. rewrite <- (nw_sym p Hsym k s t Hs Ht). exact (Z0 k Hk).
+Qed.
+
+Definition sp_match (a b : option (nat * Q)) : Prop :=
+  match a, b with
+  | Some (d, x), Some (d', y) => d = d' /\ (x == y)%Q
+  | None, None => True
+  | _, _ => False
+  end.
+
+Lemma sp_info_sym p s t : gwf p -> psym p -> s < length p -> t < length p ->
+  sp_match (sp_info p s t) (sp_info p t s).
+Proof.
+  intros Hwf Hsym Hs Ht. destruct (sp_info p s t) as [[d x]|] eqn:E1.
+  - destruct (sp_info_inv p s t d x Ht E1) as (Hd & -> & _).
+    rewrite (sp_info_some p t s d Hwf Ht Hs (sdist_sym p s t d Hsym Hs Ht Hd)). cbn [sp_match].
+    split; [reflexivity|]. rewrite !nwalks_nw by assumption. apply nw_sym; assumption.
+  - destruct (sp_info p t s) as [[d y]|] eqn:E2; [|exact I]. cbn [sp_match].
+    destruct (sp_info_inv p t s d y Hs E2) as ([Pz _] & _ & Hdn).
+    rewrite (nw_sym p Hsym d t s Ht Hs) in Pz. rewrite (sp_info_none_inv p s t Ht E1 d Hdn) in Pz. lra.
+Qed.
+
+Lemma pair_dep_sym p s t v : gwf p -> psym p -> s < length p -> t < length p -> v < length p ->
+  (pair_dependency p s t v == pair_dependency p t s v)%Q.
+Proof.
+  intros Hwf Hsym Hs Ht Hv. unfold pair_dependency.
+  assert (M1 := sp_info_sym p s t Hwf Hsym Hs Ht).
+  assert (M2 := sp_info_sym p s v Hwf Hsym Hs Hv).
+  assert (M3 := sp_info_sym p v t Hwf Hsym Hv Ht).
+  destruct (sp_info p s t) as [[d x]|], (sp_info p t s) as [[d' x']|]; cbn [sp_match] in M1; try contradiction.
+  2:{ reflexivity. }
+  destruct M1 as [<- Ex].
+  destruct (sp_info p s v) as [[d1 y]|], (sp_info p v s) as [[d1' y']|]; cbn [sp_match] in M2; try contradiction.
+  2:{ destruct (sp_info p t v) as [[? ?]|]; reflexivity. }
+  destruct M2 as [<- Ey].
+  destruct (sp_info p v t) as [[d2 z]|], (sp_info p t v) as [[d2' z']|]; cbn [sp_match] in M3; try contradiction.
+  2:{ reflexivity. }
+  destruct M3 as [<- Ez]. rewrite (Nat.add_comm d2 d1).
+  destruct (Nat.eqb (d1 + d2) d); [|reflexivity]. rewrite Ex, Ey, Ez. unfold Qdiv. ring.
+Qed.
+
+Lemma bsum_sym_half n (f : nat -> nat -> Q) :
+  (forall a b, a < n -> b < n -> (f a b == f b a)%Q) -> (forall a, a < n -> (f a a == 0)%Q) ->
+  (bsum n (fun a => bsum n (f a)) == 2 * bsum n (fun a => bsum a (f a)))%Q.
+Proof.
+  induction n as [|n IH]; intros Hs Hd; [cbn [bsum]; ring|].
+  cbn [bsum].
+  assert (E1 : (bsum n (fun a => bsum (S n) (f a)) == bsum n (fun a => bsum n (f a)) + bsum n (fun a => f a n))%Q).
+  { rewrite <- bsum_plus. apply bsum_ext. intros a _. reflexivity. }
+  rewrite E1. rewrite IH by (intros; try apply Hs; try apply Hd; lia).
+  rewrite (Hd n) by lia.
+  assert (E2 : (bsum n (fun a => f a n) == bsum n (f n))%Q) by (apply bsum_ext; intros a Ha; apply Hs; lia).
+  rewrite E2. ring.
+Qed.
+
+(** For a symmetric pattern and a symmetric adjacency, the coded betweenness of v is the sum over the
+    UNORDERED pairs {s, t} (each taken once, t < s), s <> v <> t, of sigma_st(v) / sigma_st. *)
+Theorem brandes_undirected_proof (g : wgraph) :
+  (forall u v, In v (row (pattern g) u) -> v < length g) ->
+  (forall u, NoDup (row (pattern g) u)) ->
+  (forall u v, In v (row (pattern g) u) <-> In u (row (pattern g) v)) ->
+  is_symmetric g = true ->
+  forall v, v < length g ->
+    (V (betweenness g) v ==
+     bsum (length g) (fun s => bsum s (fun t =>
+       if Nat.eqb s v || Nat.eqb t v then 0 else pair_dependency (pattern g) s t v)))%Q.
+Proof.
+  intros Hwf Hnd Hsym Hsg v Hv. assert (Lp := pattern_length g).
+  assert (Hwf' : gwf (pattern g)) by (intros a b H; rewrite Lp; exact (Hwf a b H)).
+  destruct (brandes_exact_explicit g Hwf Hnd) as [_ H]. destruct (H v Hv) as [H1 H2].
+  rewrite H1, H2. cbv zeta. rewrite Hsg.
+  rewrite (bsum_sym_half (length g) (fun s t =>
+     if Nat.eqb s v || Nat.eqb t v || Nat.eqb s t then 0%Q else pair_dependency (pattern g) s t v)).
+  - setoid_replace (2 * bsum (length g) (fun a => bsum a (fun t =>
+        if Nat.eqb a v || Nat.eqb t v || Nat.eqb a t then 0 else pair_dependency (pattern g) a t v)) / 2)%Q
+      with (bsum (length g) (fun a => bsum a (fun t =>
+        if Nat.eqb a v || Nat.eqb t v || Nat.eqb a t then 0 else pair_dependency (pattern g) a t v)))%Q by field.
+    apply bsum_ext. intros a Ha. apply bsum_ext. intros t Ht.
+    assert (E : Nat.eqb a t = false) by (apply Nat.eqb_neq; lia). rewrite E, orb_false_r. reflexivity.
+  - intros a b Ha Hb. rewrite (Nat.eqb_sym b a), (orb_comm (Nat.eqb b v) (Nat.eqb a v)).
+    destruct (Nat.eqb a v || Nat.eqb b v || Nat.eqb a b); [reflexivity|].
+    apply pair_dep_sym; try assumption; rewrite Lp; assumption.
+  - intros a _. rewrite Nat.eqb_refl, orb_true_r. reflexivity.
 Qed.
